@@ -9,7 +9,9 @@ import Mathlib.Tactic.NormNum
 
 The model `getMask` (Model/StationR.lean, from lean/templates/Station.tpl) follows
 `TopocentricFrame.get_mask` branch for branch: reduction of the azimuth by `%`, exact-hit test, the scan
-loop with its `else` branch, the wrap `x0 = 0`.
+loop with its `else` branch, the wrap `x0 = 0`.  Its formulas (`maskReduce`, `maskStops`, `maskWrapX0`, `maskInterp`) are
+translated from the Python source on every run (Generated/StationGeoR.lean), so the theorems below are re-proved
+against the current text of `get_mask`.
 -/
 noncomputable section
 namespace BeyondVerif.C11
@@ -142,7 +144,7 @@ theorem mask_is_pwl_interp (tbl : List (ℝ × ℝ)) (hne : tbl ≠ []) (hinc : 
   | nil => exact absurd rfl hne
   | cons first rest =>
     unfold getMask
-    simp only [pi]
+    simp only [maskReduce, maskInterp, maskWrapX0, pi]
     generalize fmod azim (2 * Real.pi) = x at hx0 hx1 ⊢
     cases hh : maskHit x (first :: rest) with
     | some y =>
@@ -257,7 +259,7 @@ theorem mask_exact_hit (tbl : List (ℝ × ℝ)) (hinc : StrictIncr tbl) (azim y
   | nil => cases hmem
   | cons first rest =>
     unfold getMask
-    simp only [pi]
+    simp only [maskReduce, pi]
     rw [maskHit_of_mem _ hinc hmem]
 
 /-- **The value given at azimuth 2π also serves at azimuth 0**: for a table following the convention whose first
